@@ -33,8 +33,10 @@ CONSTANTS
     Slack,          \* compressed columns are written with dmin .. dmin+Slack difference bits
     ValueMode,      \* produce: "classes" (value classes rotating over positions) | "all" (every content of every field)
     Mode,           \* "produce" | "consume"
-    ResetPolicy     \* "fm94": every register is re-initialised at each subset
+    ResetPolicy,    \* "fm94": every register is re-initialised at each subset
                     \* "leaky": only what pybufrkit's switch_subset_context used to reset (new reference values)
+    NulStrings      \* TRUE: the "blank" string class is all NUL octets instead (character data outside IA5 text; a
+                    \* compressed column of them has an all-zero minimum, which pybufrkit returns as the empty string)
 
 VARIABLES
     tid, ed, cmp, nsub, seed,   \* chosen in Init
@@ -104,7 +106,7 @@ ClsOf(idx, s, n) ==
 Cls(idx, s) == ClsOf(idx, s, 5)
 
 StrOctet(c, i) ==
-    CASE c = 0 -> 32
+    CASE c = 0 -> IF NulStrings THEN 0 ELSE 32
       [] c = 1 -> 65 + ((i - 1) % 26)
       [] c = 2 -> <<39, 34, 92, 32, 120>>[((i - 1) % 5) + 1]
       [] c = 3 -> <<233, 65, 32, 252>>[((i - 1) % 4) + 1]
